@@ -176,18 +176,11 @@ func TestC09(t *testing.T) {
 		{{Kind: "CreateBucket", B: "bka"}, {Kind: "Put", B: "bka", K: "k1", Body: "P9"}, {Kind: "Put", B: "bka", K: "k2", Body: "P9"}},
 		{{Kind: "CreateBucket", B: "bka"}, {Kind: "Mpu", B: "bka", K: "k1", Parts: []string{"P5", "a"}}, {Kind: "CreateUpload", B: "bka", K: "k2"}, {Kind: "UploadPart", B: "bka", K: "k2", U: 2, N: 1, Body: "P5"}},
 	}
-	s := &sx.Search{Run: run, TestRun: "^TestWorker$", Seeds: seeds, Spec: sx.SpecByName("C09"), Depth: 2,
-		Stacks: []string{world.StackFS, world.StackSQL, world.StackNamed, world.StackEC, world.StackOB}}
-	if !quick() {
-		s.Depth = 3
-		s.Stacks = world.AllStacks
-	}
-	s.Explore()
-	s.Coverage()
-	// crashed operations: the crash engine's runs (C10) with the convergence oracle after restart
+	// crashed operations first (bounded): the crash engine's runs (C10) with the convergence oracle after
+	// restart; "put-new" and "delete" leave the parts table empty, so the orphan is all the GC has to find
 	outs := c10Explore(run, true, func(c c10Case) bool {
 		if quick() {
-			return c.Name == "put-overwrite" || c.Name == "delete-shared" || c.Name == "complete" || c.Name == "abort" || c.Name == "transition-to-cold" || c.Name == "append"
+			return c.Name == "put-new" || c.Name == "delete" || c.Name == "put-overwrite" || c.Name == "delete-shared" || c.Name == "complete" || c.Name == "abort" || c.Name == "transition-to-cold" || c.Name == "append"
 		}
 		return true
 	})
@@ -202,6 +195,14 @@ func TestC09(t *testing.T) {
 			run.Report(v)
 		}
 	}
+	s := &sx.Search{Run: run, TestRun: "^TestWorker$", Seeds: seeds, Spec: sx.SpecByName("C09"), Depth: 2,
+		Stacks: []string{world.StackFS, world.StackSQL, world.StackNamed, world.StackEC, world.StackOB}}
+	if !quick() {
+		s.Depth = 3
+		s.Stacks = world.AllStacks
+	}
+	s.Explore()
+	s.Coverage()
 	run.Cov["crash_runs_followed_by_gc"] = crashRuns
 	run.Cov["transitions"] = s.Transitions + crashRuns
 	fmt.Printf("C09: crash runs=%d\n", crashRuns)
